@@ -532,6 +532,8 @@ def c07_prediction(case, rng, kp0):
                 return False, dict(what='return_input does not pass the inputs through unchanged', label=l,
                                    relift_state=relift)
             Th = ep_th[l]
+            if not np.all(np.isfinite(Xl)) or float(np.max(np.abs(Xl))) > 1e8:
+                continue          # this episode's prediction diverged (nonlinear lifting): the NaN branch, tested separately
             if not np.array_equal(ep_thu[l][:, :nso], Th) or ep_thu[l].shape[1] != nso + nuo:
                 return False, dict(what='return_lifted/return_input blocks inconsistent', label=l, relift_state=relift)
             Ups = ep_thu[l][:, nso:]
@@ -602,9 +604,14 @@ def c07_prediction(case, rng, kp0):
     ui = pykoop.extract_input(Xi, n_inputs=nu, episode_feature=ep)
     for relift in (True, False):
         try:
+            b1 = kp.predict_trajectory(Xi, relift_state=relift)
+        except Exception:  # noqa
+            continue          # the float prediction itself leaves the finite range on these data: nothing to compare
+        if not np.all(np.isfinite(b1)):
+            continue
+        try:
             a1 = kp.predict_trajectory(Xi.astype(np.int64), relift_state=relift)
             a2 = kp.predict_trajectory(x0i.astype(np.int64), ui.astype(np.int64), relift_state=relift)
-            b1 = kp.predict_trajectory(Xi, relift_state=relift)
         except Exception as e:  # noqa
             return False, dict(what=f'predict_trajectory on integer-typed data raised {type(e).__name__}: {e}',
                                relift_state=relift)
